@@ -1,6 +1,6 @@
 """registers every contract.  Lemma modules need z3 and are skipped under the
 repository's interpreter (native replay / bounded stand-ins only need contracts)."""
-from . import c18_trim, c08_terrain, c13_spectral, c12_classify, c09_focal, c19_metrics, c02_zonal, c06_proximity, c14_astar, c05_viewshed, c15_polygonize, c17_local  # noqa: F401
+from . import c18_trim, c08_terrain, c13_spectral, c12_classify, c09_focal, c19_metrics, c02_zonal, c06_proximity, c14_astar, c05_viewshed, c15_polygonize, c17_local, c16_regions  # noqa: F401
 
 try:
     import z3  # noqa: F401
